@@ -248,8 +248,12 @@ def run_driver(binary, driver, args, outdir, timeout=3600):
     t0 = time.time()
     try:
         p = sh(cmd, timeout=timeout, check=False)
-    except subprocess.TimeoutExpired:
-        raise ToolError("driver timed out: " + " ".join(cmd))
+    except subprocess.TimeoutExpired as te:
+        # a hang of the library under test is data as well: treat like a kill
+        class _P:
+            returncode = -9
+            stdout = "TIMEOUT after %ss (hang)" % timeout
+        p = _P()
     aborted = None
     if p.returncode < 0:
         # the library under test killed the process (abort): this is data.
